@@ -101,6 +101,24 @@ CHECKS = {
     note='Namespace identifiers opaque (2-letter alphabet bounds distinct namespaces); <=2 (quick) / 3 (thorough) same-named declarations; '
          'well-formed models type parameters with externs.',
     technique='symbolic path exploration (CrossHair + z3) over an int-coded model family, real Builder.build per path, C++ type read from output'),
+ 'C12': dict(
+    cat='model_checking', ref='DESIGN.md §3 C12',
+    text='Histories replaced by one inductive step plus an invariant (no dznpy module/class state changes): from every valid case of the '
+         'family and every single-fault variation, after Builder.build (returning or raising) the deep structural snapshot of model and '
+         'configuration is unchanged, global state is unchanged, repeated builds (fresh and same Builder instance) give the same outcome, and '
+         'support files equal stand-alone generation; plus ordered pairs of builds on one Builder instance vs a fresh build.',
+    note='Induction argument uses C08 (determinism). Structural snapshot ignores object identity; process state outside dznpy modules not observed. '
+         'Each path fixes the case by solver-checked branching and runs the real code.',
+    technique='symbolic path exploration (CrossHair + z3) over the case family; inductive step with global-state invariant'),
+ 'C13': dict(
+    cat='model_checking', ref='DESIGN.md §3 C13',
+    text='Every valid case of the family (11 models x port configurations x origins x prefix = 168) must build the complete 8-file set; every '
+         'applicable single fault (26 kinds: encapsulee, port type, selections, every multi-client field) must fail with a diagnosed error; '
+         'internal errors (KeyError/AttributeError/IndexError/RecursionError/interpreter TypeError) are violations. A hunt harness drives symbolic '
+         'encapsulee/multi-client names through the real build (it found the out-event-as-release defect).',
+    note='Diagnosed = library error types or an explicit `raise ValueError/TypeError` with message inside dznpy (lenient reading, stated). '
+         'Well-formed models only; per-path timeout is the watchdog.',
+    technique='symbolic path exploration (CrossHair + z3) over (case, fault) + symbolic-name hunt through the real Builder.build'),
 }
 
 NOT_APPLICABLE = {
